@@ -85,11 +85,14 @@ def read_groundwater_table(
 
                 # Linear interpolation between dates
 
-                # create daily depths for each simulation day
-                # fill unspecified days with NaN
-                z_gw = pd.Series(
-                    np.nan * np.ones(len(ClockStruct.time_span)), index=ClockStruct.time_span
+                # create daily depths for each day between the first and the last
+                # of the simulation days and the observations (observations may
+                # lie outside the simulation period); fill unspecified days with NaN
+                days = pd.date_range(
+                    min(df.Date.min(), ClockStruct.time_span[0]),
+                    max(df.Date.max(), ClockStruct.time_span[-1]),
                 )
+                z_gw = pd.Series(np.nan * np.ones(len(days)), index=days)
 
                 for row in range(len(df)):
                     date = df.Date.iloc[row]
@@ -100,6 +103,9 @@ def read_groundwater_table(
                 # (days before the first observation take its value, as with
                 # the 'Constant' method, instead of staying undefined)
                 z_gw = z_gw.interpolate(limit_direction="both")
+
+                # keep the simulation days
+                z_gw = z_gw.loc[ClockStruct.time_span]
 
         # assign values to Paramstruct object
         ParamStruct.z_gw = z_gw.values
